@@ -18,6 +18,7 @@ func main() {
 		"refs":      func(f []string) string { return k8s.VerifRefs(verifio.KV(f)) },
 		"crash":     func(f []string) string { return k8s.VerifCrash(verifio.KV(f)) },
 		"lbc":       func(f []string) string { return k8s.VerifLbc(verifio.KV(f)) },
+		"gcreport":  func(f []string) string { return k8s.VerifGcReport(verifio.KV(f)) },
 		"cls":       func(f []string) string { return k8s.VerifClass(verifio.KV(f)) },
 		"injlist":   func(f []string) string { return k8s.VerifInjList(verifio.KV(f)) },
 		"injbase":   func(f []string) string { return k8s.VerifInjBase(verifio.KV(f)) },
